@@ -6,7 +6,9 @@ class STLParserErrorListener( ErrorListener ):
         raise RTAMTException (str(line) + ":" + str(column) + ": Syntax ERROR, " + str(msg))
 
     def reportAmbiguity(self, recognizer, dfa, startIndex, stopIndex, exact, ambigAlts, configs):
-        raise RTAMTException("Ambiguity ERROR, " + str(configs))
+        # not an error: ANTLR reports the ambiguity and resolves it following the
+        # order of the alternatives (e.g. "x >= y - 1" between infix and prefix minus)
+        pass
 
     def reportAttemptingFullContext(self, recognizer, dfa, startIndex, stopIndex, conflictingAlts, configs):
         pass
